@@ -28,6 +28,7 @@ RULE = (
     "applied to target) and icontract postconditions run on every Slice.then / Sort.then call.  Non-trivial = the "
     "library returned something other than a plain new node; distinct = (engine, pair kinds, merge outcome, prefix "
     "skeleton)."
+    "  In the iteration engine 30 % of the free pairs put a user-defined Reordering / RowFilter next to a built-in operation (neither may be elided by whatever simplify() the other inherits). "
 )
 ASSUMPTIONS = [
     "interpreter vmon/interp.py and model vmon/model.py; SQLite executes SQL trees only where the result is "
